@@ -31,7 +31,7 @@ META = dict(
          "default/shifted index, dask; 17 time carriers: datetime64 ns/us/ms/s, lists/tuples of datetime/Timestamp/"
          "datetime64, DatetimeIndex and Series naive/UTC-aware, epoch seconds int/float list/ndarray; spans as "
          "list/tuple) plus every (data carrier x time carrier) pair for N<=2; the flags must equal the canonical ones "
-         "Scale: 162..512-point and 1500-point series for every time carrier after an earlier call, with the same carrier, on another axis of the same shape (every odd timestamp moved); a frequency-carrying DatetimeIndex and a monthly axis. (an exception is a disagreement). non-trivial = non-canonical carrier",
+         "(an exception is a disagreement). Scale: 162..512-point and 1500-point series for every time carrier after an earlier call, with the same carrier, on another axis of the same shape (every odd timestamp moved); a frequency-carrying DatetimeIndex and a monthly axis. non-trivial = non-canonical carrier",
     bounds={"quick": {"max_len": 3}, "thorough": {"max_len": 5}},
     not_judged=["epoch seconds inside a pandas Series (statement lists Series under datetimes)",
                 "time-valued data for valid_range_test (the statement's time carriers are about the time input)",
